@@ -205,6 +205,47 @@ example : check ⟨2, [
     ⟨"f", 1, 4, blk [.load 1 0 .elem, .call 2 0 [1], .ret 2], .pure, ⟨[], true, .any⟩⟩]⟩
     = false := by decide
 
+/-! ### Hidden module-level state (the shapes of the seeded changes C19-c, C20-c, C01-c, C07-c, C10-c)
+
+tools/py2effects.py maps every attribute / element store whose base is a class object, a function object
+or a module, every `global` rebinding, `setattr`, and every mutating method of a module-level container to a
+store through a `global` object (object 0 = "unknown module-level state").  Whatever summary is proposed,
+such a function is rejected; only reading the state is accepted.
+(`python3 tools/py2effects.py --selftest` runs the translator itself on these Python shapes.) -/
+
+/-- `class Epoch: _leap_years = {}` … `Epoch._leap_years[cycle] = leap; return Epoch._leap_years[cycle]`
+in a static method (C19-c): a store into the class-level dict (module-level object 5) -/
+example : check ⟨2, [⟨"is_leap", 1, 4, blk [.global 1 5, .scalar 2, .setitem 1 2, .global 1 5, .load 3 1 .elem, .ret 3],
+    .pure, ⟨[], true, .any⟩⟩]⟩ = false := by decide
+example : check ⟨2, [⟨"is_leap", 1, 4, blk [.global 1 5, .scalar 2, .setitem 1 2, .global 1 5, .load 3 1 .elem, .ret 3],
+    .pure, ⟨[], false, .any⟩⟩]⟩ = false := by decide
+/-- only reading the class-level dict is fine -/
+example : check ⟨2, [⟨"is_leap", 1, 4, blk [.global 1 5, .load 3 1 .elem, .ret 3], .pure, ⟨[], true, .any⟩⟩]⟩ = true := by
+  decide
+/-- `f._last = (t, value)` / `last = f._last` (C20-c): the function object is module-level state -/
+example : check ⟨2, [⟨"nutation_longitude", 1, 4, blk [.global 1 0, .load 2 1 (.field 1), .new 3, .global 1 0,
+    .store 1 (.field 1) 3, .ret 2], .pure, ⟨[], false, .any⟩⟩]⟩ = false := by decide
+/-- `global COUNT; COUNT = x`: a store into the module namespace -/
+example : check ⟨2, [⟨"f", 1, 3, blk [.global 1 0, .store 1 (.field 0) 0], .pure, ⟨[], false, .scal⟩⟩]⟩ = false := by
+  decide
+/-- `TABLE.append(x)`, `TABLE.pop()`, `TABLE.sort()`, `TABLE.clear()`, `CACHE.update(..)`, `TABLE[i] = x`,
+`del TABLE[i]` on a module-level container (C01-c, C07-c, C10-c): all are element stores -/
+example : check ⟨2, [⟨"f", 1, 3, blk [.global 1 3, .append 1 0], .pure, ⟨[], false, .scal⟩⟩]⟩ = false := by decide
+example : check ⟨2, [⟨"f", 1, 3, blk [.global 1 3, .load 2 1 .elem, .scalar 0, .setitem 1 0, .ret 2], .pure,
+    ⟨[], false, .any⟩⟩]⟩ = false := by decide
+/-- … while working on a local copy (`t = list(TABLE); t.append(x); t.sort()`) is accepted -/
+example : check ⟨2, [⟨"f", 1, 5, blk [.global 1 3, .new 2, .load 3 1 .elem, .store 2 .elem 3, .append 2 0, .ret 2], .pure,
+    ⟨[], false, .fresh⟩⟩]⟩ = true := by decide
+/-- `setattr(o, name, x)` on a parameter: a store into the parameter's object, which a side-effect-free
+function may not do (the translator gives up on `setattr` and emits a store to unknown state) -/
+example : check ⟨2, [⟨"f", 2, 3, blk [.store 0 .elem 1], .pure, ⟨[0], false, .scal⟩⟩]⟩ = false := by decide
+example : check ⟨2, [⟨"f", 2, 4, blk [.global 3 0, .store 3 .elem 2], .pure, ⟨[], false, .scal⟩⟩]⟩ = false := by decide
+/-- `def f(x, acc=[]): acc.append(x); return acc`: the function writes its parameter `acc`, and the default
+object is one module-level object shared by every call that omits the argument -/
+example : check ⟨2, [⟨"f", 2, 3, blk [.append 1 0, .ret 1], .pure, ⟨[1], false, .param 1⟩⟩]⟩ = false := by decide
+example : check ⟨2, [⟨"_f", 2, 3, blk [.append 1 0, .ret 1], .helper, ⟨[1], false, .param 1⟩⟩,
+    ⟨"caller", 1, 4, blk [.global 1 0, .call 2 0 [0, 1], .ret 2], .pure, ⟨[], false, .any⟩⟩]⟩ = false := by decide
+
 /-- heap with the source object 0 (attribute 1 -> list 1) and its list 1 -/
 def exHeap : Heap := ⟨2, fun i k => if i = 0 ∧ k = 1 then .ref 1 else .scalar⟩
 
